@@ -56,7 +56,7 @@ func verifStrOf(name string, lens ...int) string {
 
 // eth-style external address as accepted by ValidateExternalAddr: see VerifC03LemmaExternalAddr
 func verifValidEthAddr(name string) string {
-	k := rt.Bound("symbolicCharsPerAddress", 6, 42)
+	k := rt.Bound("symbolicCharsPerAddress", 6, 12)
 	s := rt.Str(name, k)
 	rt.Assume(rt.CharsIn(s, verifEthSet))
 	for len(s) < 42 {
@@ -318,7 +318,7 @@ func VerifC03SendToExternal() {
 }
 
 func verifBridgeToken(p string) *MsgBridgeTokenClaim {
-	maxLen := rt.Bound("maxFreeText", 3, 5)
+	maxLen := rt.Bound("maxFreeText", 3, 4)
 	lens := make([]int, 0, maxLen)
 	for l := 1; l <= maxLen; l++ {
 		lens = append(lens, l)
@@ -401,4 +401,25 @@ func VerifC03BridgeCallSplit() {
 	rt.Assert(a.Value.Equal(b.Value), "bridgecall split: value")
 	rt.Assert(rt.StrEq(a.TxOrigin, b.TxOrigin), "bridgecall split: tx origin")
 	rt.Assert(rt.BytesEq(a.MustMemo(), b.MustMemo()), "bridgecall split: memo")
+}
+
+// verifTargetSpellings: the cross-chain / IBC target spellings the handler distinguishes or
+// treats alike (the hash must tell apart any two that are different texts).
+var verifTargetSpellings = []string{"", "erc20", "module/evm", "gravity", "chain/gravity", "eth", "ibc/0/px", "px/transfer/channel-0", "channel-0/px", "ibc/px/transfer/channel-0"}
+
+// VerifC03SendToFxTargets: two SendToFx claims that differ at most in the spelling of their
+// target (taken from the spellings the target parser knows, including pairs that parse to the
+// same destination and pairs of which one is the other's canonical rendering) have the same
+// ClaimHash only if the target texts are identical.
+func VerifC03SendToFxTargets() {
+	verifSetup()
+	a := verifSendToFx("a.")
+	b := &MsgSendToFxClaim{EventNonce: a.EventNonce, BlockHeight: a.BlockHeight, TokenContract: a.TokenContract, Sender: a.Sender, Amount: a.Amount, Receiver: a.Receiver,
+		BridgerAddress: a.BridgerAddress, ChainName: a.ChainName}
+	ta := verifTargetSpellings[rt.Choose("a.targetSpelling", len(verifTargetSpellings))]
+	tb := verifTargetSpellings[rt.Choose("b.targetSpelling", len(verifTargetSpellings))]
+	a.TargetIbc, b.TargetIbc = hex.EncodeToString([]byte(ta)), hex.EncodeToString([]byte(tb))
+	rt.Assume(rt.BytesEq(a.ClaimHash(), b.ClaimHash()))
+	rt.Cover("same-hash")
+	rt.Assert(ta == tb, "sendtofx: target spelling")
 }
